@@ -248,13 +248,13 @@ PROPS["C10"] = {
 C18_Q = ["Harness_C18_faithful_1x1", "Harness_C18_faithful_2x1", "Harness_C18_faithful_1x2", "Harness_C18_determinism_2x1", "Harness_C18_determinism_1x2"]
 PROPS["C18"] = {
     "jobs": [{"pkg": "sdl", "files": ["harness/C18/sdl.go"], "quick": C18_Q,
-              "thorough": C18_Q + ["Harness_C18_faithful_2x2", "Harness_C18_faithful_1x1e2", "Harness_C18_determinism_2x2"], "opts": {"timeout": 30000},
+              "thorough": C18_Q + ["Harness_C18_faithful_2x2", "Harness_C18_faithful_1x1e2"], "opts": {"timeout": 30000},
               "reach": {"Harness_C18_faithful_1x1": ["translated", "document-valid"]}},
              {"pkg": "sdl", "files": ["harness/C18/toplevel.go", "harness/C18/attrs.go"], "shims": ["shim.go.tmpl", "shim_loop.go.tmpl"],
               "quick": ["Harness_C18_toplevel_order", "Harness_C18_attr_order"], "thorough": ["Harness_C18_toplevel_order", "Harness_C18_attr_order"], "opts": {"timeout": 30000, "witness": 4},
               "reach": {"Harness_C18_toplevel_order": ["unmarshalled"], "Harness_C18_attr_order": ["unmarshalled"]}}],
     "bounds": {"quick": "top level: (*sdl).UnmarshalYAML on a mapping node with the entries version/services/profiles/deployment in all 24 orders (node.Decode stubbed in the engine); decoded SDL v2 value: <=2 services x <=2 placements (not both 2 in quick) x <=2 compute profiles, 1 expose per service (thorough 2) with symbolic port/as/proto/to/global, symbolic 1-byte image suffix/command/argument/env value, symbolic counts, cpu/memory/storage and prices inside the chain's limits; determinism: two runs with every Go map iteration order explored independently",
-               "thorough": "2x2 services x placements, 2 exposes"},
+               "thorough": "2x2 services x placements (faithfulness), 2 exposes; the 2x2 determinism instance does not finish in 25 min (every map range is a permutation choice in both runs) and is not registered"},
     "stubs": COMMON_STUBS + ["sort.Slice/sort.Strings -> real sort code with an engine swapper", "regexp (service names, env names, hostnames) -> native evaluation on concrete strings"],
     "outside_claim": ["YAML parsing and unit-string parsing (yaml.Unmarshal, units.go): the claim starts at the decoded v2 value, so 'any reordering of YAML mapping keys' is covered as 'any Go map iteration order'", "the version hash (json.Marshal/SortJSON/SHA-256)"],
     "assumptions": ["service/placement/profile names are concrete"],
